@@ -69,6 +69,9 @@ def keys_e2e(case, comps):
                 keys.append("e2e-request-target-changed")
         elif c == "X-Forwarded-For" and len(sent_values(q, "X-Forwarded-For")) > 1:
             keys.append("e2e-x-forwarded-for-later-field-lines-dropped")
+        elif c == "Cache-Control" and not sent_values(q, "Cache-Control") and \
+                [v.lower() for v in sent_values(q, "Pragma")][:1] == ["no-cache"]:
+            keys.append("e2e-cache-control-added-for-pragma-no-cache")
         elif c == "X-Forwarded-Url" and "TARGET" in comps and not sent_values(q, "X-Forwarded-Url"):
             pass   # X-Forwarded-Url is derived from the request target: same class as the TARGET component
         elif c in ("BODY", "FRAMING", "METHOD", "STATUS", "NOTFORWARDED", "OWNFORWARDED"):
